@@ -12,7 +12,7 @@ import harness.C16 as C16
 
 ID = 'C01'
 LEVEL = 'model_checking'
-DISTS = ['CPA', 'CPAAlt', 'DPA', 'ANOVA', 'NICV', 'SNR-auto', 'MIA', 'TemplateBuild', 'TemplateMatch', 'TTest']
+DISTS = ['CPA', 'CPAAlt', 'DPA', 'ANOVA', 'NICV', 'SNR-auto', 'SNR-2cls', 'MIA', 'TemplateBuild', 'TemplateMatch', 'TTest']
 META = dict(
     functions=['scared.distinguishers.base:DistinguisherMixin.update/compute', 'scared.distinguishers.cpa:*', 'scared.distinguishers.dpa:*', 'scared.distinguishers.partitioned:*',
                'scared.distinguishers.mia:*', 'scared.distinguishers.template:*', 'scared.ttest:TTestThreadAccumulator.update/compute/_update_core'],
@@ -80,7 +80,9 @@ def data_for(dist, variant, n):
     if dist in ('CPA', 'CPAAlt'):
         return S.sym_real('y', (n, 2), 'uint8')
     if dist == 'DPA':
-        return S.const(rnp.array([[0, 1], [1, 1], [1, 0], [0, 0]][:n], dtype='uint8'))
+        return S.const(rnp.array([[0, 1], [0, 0], [1, 0], [1, 1]][:n], dtype='uint8'))       # trace 1 alone is a batch without any one
+    if dist == 'SNR-2cls':
+        return S.const(rnp.array([[0, 1], [1, 0], [0, 0], [1, 1]][:n], dtype='uint8'))       # both classes of both words populated after two traces
     if dist == 'MIA':
         return S.const(rnp.array([[0, 1], [2, 7], [1, 1], [0, 2]][:n], dtype='uint8'))
     if dist == 'TemplateMatch':
@@ -230,6 +232,8 @@ def replay(w):
             return D.NICVDistinguisher(partitions=[0, 1, 2], precision=p)
         if dist == 'SNR-auto':
             return D.SNRDistinguisher(precision=p)
+        if dist == 'SNR-2cls':
+            return D.SNRDistinguisher(partitions=[0, 1], precision=p)
         if dist == 'MIA':
             return D.MIADistinguisher(bin_edges=[0, 2, 4, 6], partitions=[0, 1, 2])
         if dist == 'TemplateBuild':
